@@ -1436,6 +1436,8 @@ def _eval_ast(ast, functions):
             kwargs['generates'] = generates
         if consumes:
             kwargs['consumes'] = consumes
+        if func not in functions:
+            raise ExpressionSyntaxError('Unknown function: {!r}.'.format(func))
         result = functions[func](*args, **kwargs)
         shape = sum((arg.shape[:arg.ndim-consumes] for arg in args), ())
         if result.ndim != len(shape) + generates or result.shape[:len(shape)] != shape:
